@@ -65,7 +65,26 @@ def _flatten_step(res, sm, sc):
     return res[sm][sc]
 
 
+class _Shape(Exception):
+    pass
+
+
+def _single(cell, eq):
+    """a step result holds exactly one (time, value) pair per equation"""
+    items = list(cell.items())
+    if len(items) != 1:
+        raise _Shape("the result of one step holds %d entries for %s: %r" % (len(items), eq, dict(items)))
+    return items[0]
+
+
 def check_case(case):
+    try:
+        return _check_case(case)
+    except _Shape as e:
+        return {"status": "ok"}, [Violation("step-result-shape", "%s; calls %r model %r" % (e, case["calls"], SM.sym_show(_abstract(case))))]
+
+
+def _check_case(case):
     from BPTK_Py import BptkServer, bptk
 
     info = {"status": "ok"}
@@ -134,7 +153,7 @@ def check_case(case):
                     done = True
                     break
                 for eq in eqs:
-                    (t, v), = r[sm][sc][eq].items()
+                    t, v = _single(r[sm][sc][eq], eq)
                     got[eq][0].append(t)
                     got[eq][1].append(float(v))
                 k += 1
@@ -146,7 +165,7 @@ def check_case(case):
             if r is None or "msg" in r:
                 break
             for eq in eqs:
-                (t, v), = r[sm][sc][eq].items()
+                t, v = _single(r[sm][sc][eq], eq)
                 got[eq][0].append(t)
                 got[eq][1].append(float(v))
             k += 1
@@ -165,6 +184,46 @@ def check_case(case):
         b.end_session()
     finally:
         b.destroy()
+    # ---- python session over two scenarios of the manager: settings are addressed to one of them -------------
+    if case.get("sibling"):
+        k0 = abstract["constants"][0]["name"]
+        other_consts = {k0: 4.0}
+        try:
+            ref_other = SM.RefModel(abstract, constants=other_consts, limit=1e9).run()
+        except E.Fragile:
+            ref_other = None
+        if ref_other is not None:
+            scale = max(scale, SM.model_scale(ref_other))
+            model, _ = SM.build_dsl(abstract, name="c09")
+            b = bptk()
+            try:
+                b.register_scenario_manager({sm: {"model": model}})
+                scen = [("other", {"constants": dict(other_consts)}), (sc, {})]
+                if case["sibling"] == "after":
+                    scen.reverse()
+                b.register_scenarios(dict(scen), sm)
+                b.begin_session(scenarios=[sc, "other"], scenario_managers=[sm], equations=eqs)
+                got = {s_: {eq: ([], []) for eq in eqs} for s_ in (sc, "other")}
+                k = 0
+                sched_map = dict(sched)
+                while k <= n + 2:
+                    st_ = sched_map.get(k)
+                    r = b.run_step(settings={sm: {sc: st_}} if st_ else None)
+                    if r is None or "msg" in r:
+                        break
+                    for s_ in (sc, "other"):
+                        for eq in eqs:
+                            t, v = _single(r[sm][s_][eq], eq)
+                            got[s_][eq][0].append(t)
+                            got[s_][eq][1].append(float(v))
+                    k += 1
+                b.end_session()
+                for eq in eqs:
+                    if not (cmp_series("py-session-2scenarios:addressed:full", got[sc][eq][0], got[sc][eq][1], ref1, eq) and
+                            cmp_series("py-session-2scenarios:sibling:full", got["other"][eq][0], got["other"][eq][1], ref_other, eq)):
+                        return info, vs
+            finally:
+                b.destroy()
     # ---- REST ---------------------------------------------------------------
     made = []
 
@@ -196,7 +255,7 @@ def check_case(case):
                     got[eq][0].append(grid[idx] if idx < len(grid) else None)
                     got[eq][1].append(float(cell))
                 else:
-                    (t, v), = cell.items()
+                    t, v = _single(cell, eq)
                     got[eq][0].append(float(t))
                     got[eq][1].append(float(v))
             return True
@@ -279,7 +338,8 @@ def case_strategy():
             # (no built-ins directly inside stock equations: a lookup there is not an element of its own, so whether a points
             #  change at step k reaches the rate of interval k-1..k is not fixed by the statement)
             model = draw(SM.model_strategy(max_n=8, allow={"lookup", "delay", "step", "time"}, stock_builtins=False,
-                                           runspecs=[("0", "1"), ("1", "0.5"), ("2.5", "0.25"), ("0", "0.1"), ("1", "0.2"), ("1", "1")]))
+                                           runspecs=[("0", "1"), ("1", "0.5"), ("2.5", "0.25"), ("0", "0.1"), ("1", "0.2"), ("1", "1"),
+                                                     ("-2", "1"), ("-1", "0.5"), ("-8", "1"), ("-3", "0.5")]))
             if not model["points"]:
                 model["points"]["p0"] = [[0.0, 0.0], [2.0, 2.0], [4.0, 1.0]]
                 model["aux"].insert(0, {"kind": "converter", "name": "c99", "eq": ["lookup", ["time"], "p0"]})
@@ -299,7 +359,7 @@ def case_strategy():
                 fl = next(a for a in model["aux"] if a["kind"] in ("flow", "biflow"))
                 fl["eq"] = ["bin", "+", fl["eq"], ["ref", "g99"]]
             model["dt_spec"] = draw(st.sampled_from([{"dt": "1"}, {"dt": "0.5"}, {"dt": "0.25"}, {"dt": "0.1"}, {"dt": "0.2"}]))
-            model["start"] = draw(st.sampled_from(["0", "1", "2.5", "1"]))
+            model["start"] = draw(st.sampled_from(["0", "1", "2.5", "1", "-2", "-1", "-8", "-3"]))
             model["n"] = draw(st.integers(2, 8))
             consts = [c["name"] for c in model["constants"]]
             gfs = [a["name"] for a in model["aux"] if a["kind"] == "gf"]
@@ -326,7 +386,8 @@ def case_strategy():
             else:
                 calls.append(["stream", settings()])
         eqs = draw(st.lists(st.integers(0, 20), min_size=1, max_size=5))
-        return {"model": model, "model_kind": model_kind, "calls": calls, "eqs": eqs, "flat": draw(st.booleans())}
+        return {"model": model, "model_kind": model_kind, "calls": calls, "eqs": eqs, "flat": draw(st.booleans()),
+                "sibling": draw(st.sampled_from([None, "before", "after"]))}
     return build()
 
 
@@ -340,7 +401,9 @@ def _body(ctx):
         sched = _schedule(case)
         a_ = _abstract(case)
         nt = (len(kinds) >= 2 or any(k >= 1 for k, _ in sched)) and (a_["dt"] != "1" or a_["start"] != "1")
-        labels = ["call:" + k for k in sorted(kinds)] + (["with-settings"] if sched else ["no-settings"])
+        labels = ["call:" + k for k in sorted(kinds)] + (["with-settings"] if sched else ["no-settings"]) + \
+            (["two-scenario-session"] if case.get("sibling") else []) + \
+            (["stop<=0"] if float(a_["start"]) + a_["n"] * float(a_["dt"]) <= 0 else []) + (["start<0"] if float(a_["start"]) < 0 else [])
         ctx.case({"calls": case["calls"], "eqs": case["eqs"], "flat": case["flat"], "model": SM.sym_show(_abstract(case))},
                  nontrivial=nt, labels=labels, key=case)
         ctx.report(vs)
